@@ -311,6 +311,9 @@ class FlwdirRaster(Flwdir):
                 raise ValueError("Invalid transform.")
         self.transform = transform
         self.latlon = latlon
+        # cell areas and metric distances depend on the transform
+        for key in ["area", "distnc"]:
+            self._cached.pop(key, None)
 
     ### WRITE / EXPORT ###
 
